@@ -1,11 +1,18 @@
 #!/bin/sh
-# tools/seed_all.sh [tier]  -- re-evaluates every seeded change under seeded/ against the check of
-# its property (meta.json "property") and prints one line per seed; exit 1 if any is not caught.
+# tools/seed_all.sh [tier] [name-prefix ...]  -- re-evaluates every seeded change under seeded/ (or those whose
+# directory name starts with one of the prefixes) against the check of its property (meta.json "property") and
+# prints one line per seed; exit 1 if any is not caught.
 tier=${1:-quick}
+[ $# -gt 0 ] && shift
+prefixes="$*"
 V=$(cd "$(dirname "$0")/.." && pwd)
 rc=0
 for d in "$V"/seeded/*/; do
   [ -f "$d/meta.json" ] || continue
+  if [ -n "$prefixes" ]; then
+    keep=0; for px in $prefixes; do case "$(basename "$d")" in "$px"*) keep=1;; esac; done
+    [ $keep = 1 ] || continue
+  fi
   p=$(python3 -c "import json,sys; print(json.load(open(sys.argv[1]))['property'])" "$d/meta.json")
   exp=$(python3 -c "import json,sys; print(json.load(open(sys.argv[1])).get('expected','caught'))" "$d/meta.json")
   if [ "$exp" = "not-caught" ]; then echo "OUT-OF-SCOPE $(basename "$d") (judged outside the property, see its meta.json)"; continue; fi
